@@ -25,6 +25,8 @@ func main() {
 	case "conc":
 		setupLogger()
 		runConc(os.Args[2:])
+	case "raftsim":
+		runRaftsim(os.Args[2:])
 	default:
 		fmt.Fprintln(os.Stderr, "unknown engine", os.Args[1])
 		os.Exit(2)
